@@ -16,51 +16,10 @@
 #include "bexh.hpp"
 #include "C11_kv.hpp"
 
-#include <sys/mman.h>
-
 using namespace c11;
 
 namespace
 {
-struct SharedSet
-{
-  uint64_t *tab = nullptr;
-  size_t cap = 0;
-  volatile uint64_t *count = nullptr;
-  void init(size_t capPow2)
-  {
-    cap = capPow2;
-    tab = (uint64_t *)mmap(nullptr, cap * 8 + 64, PROT_READ | PROT_WRITE, MAP_SHARED | MAP_ANONYMOUS | MAP_NORESERVE, -1, 0);
-    count = (volatile uint64_t *)(tab + cap);
-  }
-  void insert(uint64_t h)
-  {
-    if (!tab)
-      return;
-    if (h == 0)
-      h = 1;
-    size_t i = (h * 0x9E3779B97F4A7C15ull) & (cap - 1);
-    for (size_t probes = 0; probes < cap; ++probes)
-    {
-      uint64_t cur = __atomic_load_n(&tab[i], __ATOMIC_RELAXED);
-      if (cur == h)
-        return;
-      if (cur == 0)
-      {
-        uint64_t exp = 0;
-        if (__atomic_compare_exchange_n(&tab[i], &exp, h, false, __ATOMIC_RELAXED, __ATOMIC_RELAXED))
-        {
-          __atomic_fetch_add(count, 1, __ATOMIC_RELAXED);
-          return;
-        }
-        if (exp == h)
-          return;
-      }
-      i = (i + 1) & (cap - 1);
-    }
-  }
-};
-
 struct PlainSink : Sink
 {
   vr::Report *r = nullptr;
@@ -88,14 +47,14 @@ Bounds boundsFor(const vr::Args &args)
   Bounds b;
   if (args.thorough())
   {
-    b.maxLen = 5;
-    b.cLen = 4;
+    b.maxLen = 6;
+    b.cLen = 5;
     b.dLen = 3;
   }
   else
   {
-    b.maxLen = 4;
-    b.cLen = 3;
+    b.maxLen = 5;
+    b.cLen = 4;
     b.dLen = 2;
   }
   b.maxLen = int(args.getInt("maxlen", b.maxLen));
@@ -156,7 +115,7 @@ int replay(const vr::Args &args, const std::string &scratch)
     fprintf(stderr, "replay: cannot parse case '%s'\n", text.c_str());
     return 2;
   }
-  vr::Report rep("C11_kv_seq", "fault_enumeration");
+  vr::Report rep(args.get("part", "C11_kv_seq"), "fault_enumeration");
   PlainSink sink;
   sink.r = &rep;
   Env env;
@@ -221,9 +180,10 @@ int main(int argc, char **argv)
   Bounds b = boundsFor(args);
   SharedSet distinct;
   distinct.init(1 << 26);
+  const std::string part = args.get("part", "C11_kv_seq");
 
   vr::run_sharded(
-      args, "C11_kv_seq", "fault_enumeration", 120, deadline > 40 ? deadline - 20 : deadline,
+      args, part, "fault_enumeration", 120, deadline > 40 ? deadline - 20 : deadline,
       [&](const vr::Shard &sh, vr::Report &rep)
       {
         std::string dir = root + "/w" + std::to_string(sh.w) + "-" + std::to_string(getpid());
@@ -303,8 +263,10 @@ int main(int argc, char **argv)
         cfs::removeTree(dir);
       });
 
-  vr::Report d("C11_kv_seq", "fault_enumeration");
+  vr::Report d(part, "fault_enumeration");
   d.distinct_nontrivial = *distinct.count;
+  if (distinct.saturated())
+    d.notes.push_back("distinct-case table saturated: distinct_nontrivial is a lower bound");
   d.write(args.out + ".distinct.json");
   cfs::removeTree(root);
   return 0;
